@@ -260,6 +260,12 @@ func run(c *eng.Ctx) {
 			nt := runWorkerCycles(c, idx)
 			c.R.End(idx, eng.Hash("c14-worker"), nt)
 		}
+		if idx := len(list) + 401; c.Mine(idx) {
+			settle(procBase)
+			c.R.Begin(idx)
+			nt := runMixedGroupCycles(c, idx)
+			c.R.End(idx, eng.Hash("c14-mixed-groups"), nt)
+		}
 		if idx := len(list) + 400; c.Mine(idx) {
 			settle(procBase)
 			c.R.Begin(idx)
